@@ -10,6 +10,8 @@
 (*   "RadiusLE"  radius and admission decode key bytes little-endian (F-C06-1, current code)  *)
 (*   "NoPutLock" Put is not serialised (F-C05-1/2/3; the code before the fix: commit)         *)
 (*   "SizeKeyRadius" open derives the radius from the size record when no item is left        *)
+(*   "SplitBatch" item and size record are written as two separate unsynced batches (seed      *)
+(*                C17-1): a crash between them leaves the item without its size update          *)
 EXTENDS Integers, Sequences, FiniteSets, TLC
 
 CONSTANTS Dists,    \* set of [hi |-> 0..B-1, lo |-> 0..B-1], never <<0,0>> (= the node id itself)
@@ -85,7 +87,10 @@ Add(p) == /\ pc[p] = "add"
 Commit(p) == /\ pc[p] = "commit"
              /\ db' = [db EXCEPT ![arg[p].d] = arg[p].s]
              /\ sizeRec' = newSize[p]
-             /\ wal' = Append(wal, [kind |-> "put", d |-> arg[p].d, s |-> arg[p].s, rec |-> newSize[p]])
+             /\ wal' = IF "SplitBatch" \in Devs
+                        THEN wal \o << [kind |-> "put", d |-> arg[p].d, s |-> arg[p].s, rec |-> sizeRec],
+                                       [kind |-> "prune", del |-> {}, rec |-> newSize[p]] >>
+                        ELSE Append(wal, [kind |-> "put", d |-> arg[p].d, s |-> arg[p].s, rec |-> newSize[p]])
              /\ IF newSize[p] > Cap THEN Goto(p, "scan") /\ UNCHANGED lock
                                     ELSE Goto(p, "idle") /\ Unlock(p)
              /\ UNCHANGED <<size, radius, durable, arg, newSize, del, freed, loaded, nput, everPut, open>>
